@@ -1,4 +1,5 @@
 import Dalek.Props.C01
+import Dalek.Props.C02
 import Dalek.Props.C04
 import Dalek.Props.C11
 import Dalek.Props.C12
